@@ -170,7 +170,7 @@ func (p *parent) runChild(spec childSpec) int {
 	limit := 40 * time.Minute
 	ctx, cancel := context.WithTimeout(context.Background(), limit)
 	defer cancel()
-	cmd := exec.CommandContext(ctx, os.Args[0], "-test.run", "^TestC15$", "-test.timeout", "0", "-test.count", "1")
+	cmd := exec.CommandContext(ctx, os.Args[0], append([]string{"-test.run", "^TestC15$", "-test.timeout", "0", "-test.count", "1"}, core.ChildCoverArgs()...)...)
 	cmd.Env = append(os.Environ(), childEnv+"="+string(sb))
 	ef, err := os.Create(errPath)
 	if err != nil {
